@@ -138,4 +138,92 @@ theorem HooksExact.toHeap (H : HooksExact P) (F : HooksNoRef P) : HooksHeap P wh
   insertLocalVal := fun n v s => .single (.ofEq (H.insertLocalVal n v s) (F.insertLocalVal n v s))
   insertLocalFn := H.insertLocalFn
 
+/-! ## Worked instance: dropping an unused `local x = <atoms>` (scope hook, as `remove_unused_variable`)
+
+Not a darklua rule model — a minimal processor with the shape of `remove_unused_variable`
+(`process_scope(block, extra)`): in every scope it drops the first `local` declaration whose
+values are literals / identifiers and whose names are referenced neither in the rest of the block
+nor in the `until` condition. The dropped cell allocation renumbers every later cell, so the
+rewrite is not exact; `runScoped_heap` gives the whole-program theorem. -/
+namespace Demo.DropUnusedLocal
+open Sem Sem.Heap
+
+def dropIn (cr : String → Bool) (last : Option Last) : List Stmt → List Stmt
+  | [] => []
+  | .localAssign k ns vs :: rest =>
+    if vs.all Expr.isAtom && (ns.map TName.name).all (fun n => !tailRefs n rest last && !cr n) then rest
+    else .localAssign k ns vs :: dropIn cr last rest
+  | s :: rest => s :: dropIn cr last rest
+
+def scopeHook (b : Block) (c : Option Expr) (s : Unit) : (Block × Option Expr) × Unit :=
+  match b with
+  | .mk ss last => ((.mk (dropIn (fun n => match c with | some e => e.refs n | none => false) last ss) last, c), s)
+
+def processor : Processor Unit := { scope := scopeHook }
+
+theorem dropIn_spec (cr : String → Bool) (last : Option Last) (ss : List Stmt) :
+    dropIn cr last ss = ss ∨
+    ∃ pre k ns vs rest, ss = pre ++ .localAssign k ns vs :: rest ∧ dropIn cr last ss = pre ++ rest ∧
+      (∀ e ∈ vs, e.isAtom = true) ∧ (∀ n ∈ ns.map TName.name, tailRefs n rest last = false ∧ cr n = false) := by
+  induction ss with
+  | nil => exact .inl rfl
+  | cons s rest ih =>
+    have step : ∀ s', dropIn cr last (s' :: rest) = s' :: dropIn cr last rest →
+        (dropIn cr last (s' :: rest) = s' :: rest ∨
+          ∃ pre k ns vs rest', s' :: rest = pre ++ .localAssign k ns vs :: rest' ∧
+            dropIn cr last (s' :: rest) = pre ++ rest' ∧ (∀ e ∈ vs, e.isAtom = true) ∧
+            (∀ n ∈ ns.map TName.name, tailRefs n rest' last = false ∧ cr n = false)) := by
+      intro s' hs'
+      rcases ih with h | ⟨pre, k, ns, vs, rest', h1, h2, h3, h4⟩
+      · exact .inl (by rw [hs', h])
+      · exact .inr ⟨s' :: pre, k, ns, vs, rest', by rw [h1]; rfl, by rw [hs', h2]; rfl, h3, h4⟩
+    cases s with
+    | localAssign k ns vs =>
+      by_cases hc : (vs.all Expr.isAtom && (ns.map TName.name).all (fun n => !tailRefs n rest last && !cr n)) = true
+      · right
+        refine ⟨[], k, ns, vs, rest, rfl, by simp only [dropIn, hc, if_true, List.nil_append], ?_, ?_⟩
+        · simp only [Bool.and_eq_true, List.all_eq_true] at hc; exact hc.1
+        · simp only [Bool.and_eq_true, List.all_eq_true, Bool.not_eq_true'] at hc
+          exact fun n hn => hc.2 n hn
+      · exact step _ (by simp only [dropIn, hc, Bool.false_eq_true, if_false])
+    | _ => exact step _ (by simp only [dropIn])
+
+theorem hooksHeap : HooksHeap processor where
+  scopeB := fun b s => by
+    cases b with
+    | mk ss last =>
+      simp only [processor, scopeHook]
+      rcases dropIn_spec (fun _ => false) last ss with h | ⟨pre, k, ns, vs, rest, h1, h2, h3, h4⟩
+      · rw [h]; exact .refl _
+      · rw [h2, h1]
+        exact .single (LkB.dropLocal (TotalPureEs.atoms h3) fun n hn => (h4 n hn).1)
+  scopeR := fun b c s => by
+    cases b with
+    | mk ss last =>
+      simp only [processor, scopeHook, Option.getD]
+      rcases dropIn_spec (fun n => c.refs n) last ss with h | ⟨pre, k, ns, vs, rest, h1, h2, h3, h4⟩
+      · rw [h]; exact .refl _
+      · rw [h2, h1]
+        exact .single (LkRep.dropLocal (TotalPureEs.atoms h3) (fun n hn => (h4 n hn).1) (fun n hn => (h4 n hn).2))
+
+/-- **whole-pass theorem**, for every program -/
+theorem run_refines (b : Block) {N : NumOps} (ρ : ExtOracle N) (n : Nat) (externs : List String) :
+    runProgram ρ n externs (Visitor.runScoped processor b ()).1 = runProgram ρ n externs b :=
+  Visitor.runScoped_heap hooksHeap b () ρ n externs
+
+/-- non-vacuity: `local function g(a) local unused = a; local y = 1; emit(y) end; g(2)` -/
+def sample : Block :=
+  .mk [.localFn .loc "g" (.mk [.mk "a" none] false none none [] []
+         (.mk [.localAssign .loc [.mk "unused" none] [.var "a"],
+               .localAssign .loc [.mk "y" none] [.num 1],
+               .callStmt (.call (.var "emit") none .tuple [.var "y"])] none)),
+       .callStmt (.call (.var "g") none .tuple [.num 2])] none
+
+example : (Visitor.runScoped processor sample ()).1 =
+    .mk [.localFn .loc "g" (.mk [.mk "a" none] false none none [] []
+           (.mk [.localAssign .loc [.mk "y" none] [.num 1],
+                 .callStmt (.call (.var "emit") none .tuple [.var "y"])] none)),
+         .callStmt (.call (.var "g") none .tuple [.num 2])] none := rfl
+
+end Demo.DropUnusedLocal
 end DarkluaModel
